@@ -449,22 +449,26 @@ func runWork(rng *vk.SplitMix, lwork int, call func(work []float64, lwork int), 
 	w := newPvec("work", lwork, rng, true)
 	snapAll(ops...)
 	w.snapshot()
-	if os.Getenv("C03_NORECOVER") != "" {
-		call(w.data, lwork)
-	}
-	if r := vk.Call(func() { call(w.data, lwork) }); r.Outcome != vk.Returned {
+	if r := doCall(func() { call(w.data, lwork) }); r.Outcome != vk.Returned {
 		return vk.Failf("valid-call-panics", "call with lwork=%d ended in %v: %s", lwork, r.Outcome, r.Text)
 	}
 	return firstFail(w.padOK(), padAll(ops...))
 }
 
+// doCall is vk.Call; with C03_NORECOVER set (debugging only) the panic escapes so
+// that the stack is printed.
+func doCall(f func()) vk.Result {
+	if os.Getenv("C03_NORECOVER") != "" {
+		f()
+		return vk.Result{Outcome: vk.Returned}
+	}
+	return vk.Call(f)
+}
+
 // runPlain runs a call without lwork protocol.
 func runPlain(call func(), ops ...*pmat) *vk.Failure {
 	snapAll(ops...)
-	if os.Getenv("C03_NORECOVER") != "" {
-		call()
-	}
-	if r := vk.Call(call); r.Outcome != vk.Returned {
+	if r := doCall(call); r.Outcome != vk.Returned {
 		return vk.Failf("valid-call-panics", "call ended in %v: %s", r.Outcome, r.Text)
 	}
 	return padAll(ops...)
